@@ -466,6 +466,99 @@ fn type_knots(t: &mut Tape) -> String {
     out
 }
 
+/// A random type expression over the whole type grammar: primitives, wildcards and generics, lists, tuples of
+/// every length, function types (with constraints), and user / library types applied to ANY number of type
+/// arguments (too few, exact, too many), unknown names and unknown namespaces. Most are invalid somewhere.
+fn type_expr(t: &mut Tape, depth: usize) -> String {
+    const PRIM: &[&str] = &["int", "float", "bool", "str", "void", "nil", "*", "*A", "*B", "*a"];
+    const USER: &[&str] = &["Zero", "One", "Two", "En", "Ext", "Maybe", "dict.Dict", "set.Set", "Nope", "nope.Nope", "list.Nope", "One.Two", "maybe.Maybe"];
+    if depth == 0 || t.chance(1, 3) {
+        return t.pick(PRIM).to_string();
+    }
+    let mut sub = |t: &mut Tape| type_expr(t, depth - 1);
+    match t.below(9) {
+        0 => format!("[{}]", sub(t)),
+        1 => {
+            let n = t.below(4);
+            let parts: Vec<String> = (0..n).map(|_| sub(t)).collect();
+            match n {
+                0 => "()".to_string(),
+                1 => format!("({}{})", parts[0], if t.bool() { "," } else { "" }),
+                _ => format!("({})", parts.join(", ")),
+            }
+        }
+        2 | 3 => {
+            let n = t.below(4);
+            let parts: Vec<String> = (0..n).map(|_| sub(t)).collect();
+            let kw = if t.chance(1, 4) { "pu" } else { "fn" };
+            let cons = match t.below(8) {
+                0 => "<A: Num> ",
+                1 => "<A: Num + Add, B: Container> ",
+                2 => "<a: Field x int> ",
+                3 => "<Q: Nope> ",
+                _ => "",
+            };
+            let ret = if t.chance(1, 4) { String::new() } else { format!(" {}", sub(t)) };
+            format!("{} {}{} ->{}", kw, cons, parts.join(", "), ret)
+        }
+        4..=7 => {
+            let name = *t.pick(USER);
+            let n = t.below(4);
+            if n == 0 && t.bool() {
+                name.to_string()
+            } else {
+                let parts: Vec<String> = (0..n).map(|_| sub(t)).collect();
+                format!("{}({})", name, parts.join(", "))
+            }
+        }
+        _ => t.pick(PRIM).to_string(),
+    }
+}
+
+/// Declarations whose annotations are random type expressions, in every position an annotation can stand:
+/// parameters, return types, local and global definitions, externals, blob fields, enum payloads.
+pub fn type_grammar(t: &mut Tape) -> String {
+    let mut out = String::new();
+    out.push_str("Zero :: blob {}\nOne :: blob(*A) {\n    a: *A,\n}\nTwo :: blob(*A, *B) {\n    a: *A,\n    b: *B,\n}\n");
+    out.push_str("En :: enum(*A)\n    L *A,\n    R,\nend\nExt :: externblob(*T) {\n    v: *T,\n}\n");
+    let n = t.below(5) + 1;
+    let mut body = String::new();
+    for i in 0..n {
+        let ty = type_expr(t, 3);
+        match t.below(9) {
+            0 => out.push_str(&format!("g{}: {} : external\n", i, ty)),
+            1 => out.push_str(&format!("f{} :: fn p: {} do\n    p\nend\n", i, ty)),
+            2 => out.push_str(&format!("f{} :: fn -> {} do\n    <!>\nend\n", i, ty)),
+            3 => out.push_str(&format!("B{} :: blob {{\n    f: {},\n}}\n", i, ty)),
+            4 => out.push_str(&format!("E{} :: enum\n    V {},\n    W,\nend\n", i, ty)),
+            5 => {
+                out.push_str(&format!("x{}: * : external\n", i));
+                body.push_str(&format!("    l{}: {} = x{}\n    l{}\n", i, ty, i, i));
+            }
+            6 => {
+                out.push_str(&format!("h{} :: fn p: {}, q: {} -> {} do\n    q\n    p\nend\n", i, ty, type_expr(t, 2), type_expr(t, 2)));
+            }
+            7 => {
+                out.push_str(&format!("k{}: {} : external\n", i, ty));
+                let u = match t.below(6) {
+                    0 => format!("k{}.a", i),
+                    1 => format!("k{} == k{}", i, i),
+                    2 => format!("k{}(1)", i),
+                    3 => format!("k{}[0]", i),
+                    4 => format!("case k{} do\n        L q -> q end\n        else end\n    end", i),
+                    _ => format!("k{} + k{}", i, i),
+                };
+                body.push_str(&format!("    {}\n", u));
+            }
+            _ => body.push_str(&format!("    c{} :: fn p: {} -> {} do\n        p\n    end\n", i, ty, type_expr(t, 1))),
+        }
+    }
+    out.push_str("start :: fn do\n");
+    out.push_str(&body);
+    out.push_str("end\n");
+    out
+}
+
 fn soup(t: &mut Tape) -> String {
     let n = t.below(120) + 1;
     let mut s = String::new();
@@ -537,8 +630,9 @@ impl Check for C07 {
     fn generate(&self, u: &mut Unstructured, _tier: Tier) -> Option<Case> {
         let mut t = Tape::new(u);
         let c = corpus();
-        let (project, origin) = match t.weighted(&[20, 30, 15, 15, 20, 25, 25, 15, 20]) {
+        let (project, origin) = match t.weighted(&[20, 30, 15, 15, 20, 25, 25, 15, 20, 15]) {
             8 => (Project::single(type_knots(&mut t)), "type-knots"),
+            9 => (Project::single(type_grammar(&mut t)), "type-grammar"),
             6 => {
                 let a = if t.chance(2, 3) { generated_program(&mut t) } else { t.pick(c).clone() };
                 (Project::single(identifier_mutation(&mut t, &a)), "identifier-mutation")
